@@ -118,6 +118,8 @@ ALPHABET = [
     C('setup --reconfigure -Dsub:s=t2', 'reconfigure', [('sub:s', 't2')], tiers='t'),
     C('setup --reconfigure -Ds=', 'reconfigure', [('s', '')], tiers='t'),
     C('setup --wipe', 'wipe'),
+    C('setup --wipe -Ds=s2', 'wipe', [('s', 's2')]),
+    C('setup --wipe -Dc=c', 'wipe', [('c', 'c')], tiers='t'),
     C('edit add', 'edit', variant='add'),
     C('edit remove', 'edit', variant='remove'),
     C('edit ab', 'edit', variant='ab'),
@@ -299,6 +301,9 @@ def model_step(m, cmd):
                 raise Unspecified('--wipe with a recorded value for an option that no longer exists')
             if not _set(w, k, v):
                 raise Unspecified('--wipe with a recorded value that the current choices reject')
+        for k, v in cmd['D']:                           # -D given together with --wipe: the newest word of the user
+            if not _set(w, k, v):
+                return 'fail', m
         return 'ok', w
     raise AssertionError(kind)
 
